@@ -985,9 +985,12 @@ def trained_ic(ctx, nT=1, ng=2, logY=False, broadcast=True):
     check_stored(ctx, surr, therm)
 
 
-def trained_curv(ctx, nx=2, nT=1, logX=False, broadcast=True, fault=False):
+def trained_curv(ctx, nx=2, nT=1, logX=False, broadcast=True, fault=False, refit=None):
     """curvature surrogate (ternary): curvatureFactor and impingementFactor at the training points equal the training
-    data; training points where the backend gave no result are left out"""
+    data; training points where the backend gave no result are left out.  refit: the model was first trained on a
+    coarser grid (one composition) and queried at a point that only the second, final training contains ("query"), or
+    the final training data arrive through fromJson of another surrogate's file ("json") -- the first query after the
+    refit is for that very point and must give the final training datum"""
     ne = 3
     therm = Therm(ctx, ne, _PHASES, flags=False)
     surr = MulticomponentSurrogate(therm, kernel=mk_kernel(ctx), kernelKwargs={})
@@ -998,9 +1001,29 @@ def trained_curv(ctx, nx=2, nT=1, logX=False, broadcast=True, fault=False):
         therm.fault["curvature_none"] = lambda x, T: all(bool(sc(a) == b) for a, b in zip(_np.ravel(oarr(x)), x0)) and bool(sc(T) == T0)
         bad = (0, 0)
     ph = _PHASES[1]
-    surr.trainCurvature(xarg, Targ, logX=logX, broadcast=broadcast)
+    order = _grid(nx, nT, broadcast)
+    if refit is not None:
+        # earlier life of the same surrogate object: coarser training (first composition only), one query at a point
+        # of the final grid that the coarse grid does not contain
+        surr.trainCurvature(xs[0], Ts if nT > 1 else [Ts[0], Ts[0] + 50.0], logX=logX, broadcast=True)
+        first = [q for q in order if q[0] == nx - 1][0]
+        if refit == "query":
+            surr.curvatureFactor(xs[first[0]], Ts[first[1]])
+        elif refit == "growth":
+            surr.getGrowthAndInterfacialComposition(xs[first[0]], Ts[first[1]], 100.0, 1.0, 10.0)
+        else:
+            surr.impingementFactor(xs[first[0]], Ts[first[1]])
+        order = [first] + [q for q in order if q != first]
+    if refit == "json":
+        other = MulticomponentSurrogate(therm, kernel=mk_kernel(ctx), kernelKwargs={})
+        other.trainCurvature(xarg, Targ, logX=logX, broadcast=broadcast)
+        with json_layer(ctx) as path_of:
+            other.toJson(path_of("final"))
+            surr.fromJson(path_of("final"))
+    else:
+        surr.trainCurvature(xarg, Targ, logX=logX, broadcast=broadcast)
     therm.fault.pop("curvature_none", None)
-    for i, j in _grid(nx, nT, broadcast):
+    for i, j in order:
         if (i, j) == bad:
             continue
         got = surr.curvatureFactor(xs[i], Ts[j])
@@ -1147,7 +1170,7 @@ def _fresh_session_defaults():
             d.clear(); d.update(_DEFAULT_OPTIONS)
 
 
-def rebuilt(ctx, ne=2, logX=False, suffix=False, options="own"):
+def rebuilt(ctx, ne=2, logX=False, suffix=False, options="own", intT=False):
     """toJson -> fromJson on a fresh surrogate: every model of the rebuilt surrogate is fitted to the same training
     matrices with the same kernel arguments (hence, for a deterministic kernel, gives the same predictions), and it
     reproduces the training data like the original"""
@@ -1170,7 +1193,8 @@ def rebuilt(ctx, ne=2, logX=False, suffix=False, options="own"):
             ctx.assume(ctx.any([sc(wa) > 0, sc(wa) == -1]), "backend contract: positive matrix composition or the sentinel -1")
         surr.trainInterfacialComposition(Ts[0], gs, logY=logX)
     else:
-        surr.trainCurvature(xarg, Ts[1], logX=logX)
+        # intT: temperatures given as integers (numpy integer scalars end up in the stored training data)
+        surr.trainCurvature(xarg, _np.array([1073, 1123]) if intT else Ts[1], logX=logX)
     check_stored(ctx, surr, therm, tag="after training: ")
     before = snapshot_data(surr)
     surr2 = mk()
@@ -1390,10 +1414,15 @@ HARNESSES = [
             bounds={"components": 3, "compositions": "nx", "temperatures": "nT"},
             params={"quick": [{"nx": 2, "nT": 1, "logX": False, "broadcast": True},
                               {"nx": 2, "nT": 2, "logX": True, "broadcast": False},
-                              {"nx": 2, "nT": 2, "logX": False, "broadcast": True, "fault": True}],
+                              {"nx": 2, "nT": 2, "logX": False, "broadcast": True, "fault": True},
+                              {"nx": 2, "nT": 1, "logX": False, "broadcast": True, "refit": "query"},
+                              {"nx": 2, "nT": 2, "logX": False, "broadcast": False, "refit": "json"},
+                              {"nx": 2, "nT": 1, "logX": True, "broadcast": True, "refit": "impingement"}],
                     "thorough": [{"nx": nx, "nT": nT, "logX": lx, "broadcast": bc, "fault": f}
                                  for nx in (1, 2, 3) for nT in (1, 2) for lx in (False, True) for bc in (True, False) for f in (False, True)
-                                 if not (nx == 1 and nT == 1) and (bc or nx == nT)]}),
+                                 if not (nx == 1 and nT == 1) and (bc or nx == nT)] +
+                                [{"nx": 2, "nT": nT, "logX": lx, "broadcast": True, "refit": r} for nT in (1, 2) for lx in (False, True)
+                                 for r in ("query", "growth", "impingement", "json")]}),
     Harness("C20.trained_curv_phase", trained_curv_phase, stubs=_S_THERM + _S_KERNEL, assumptions=_A_TR + ["R > 0"],
             functions=_F_TR + [MulticomponentSurrogate.getGrowthAndInterfacialComposition, _growthRateOutputFromCurvature],
             bounds={"components": 3, "precipitate phases": 2, "compositions": "nx", "temperatures": "nT", "radii per call": 1},
@@ -1405,13 +1434,10 @@ HARNESSES = [
     Harness("C20.rebuilt", rebuilt, functions=_F_JS + _F_TR, stubs=_S_THERM + _S_KERNEL + _S_JSON, assumptions=_A_TR,
             bounds={"components": "ne", "training grid": "2 compositions x 2 temperatures"},
             params={"quick": [{"ne": 2, "logX": False, "suffix": False}, {"ne": 3, "logX": True, "suffix": True}, {"ne": 2, "logX": True, "suffix": True},
-                              {"ne": 2, "logX": False, "suffix": True, "options": "default"}, {"ne": 3, "logX": False, "suffix": False, "options": "default"}],
-                    "thorough": [{"ne": ne, "logX": lx, "suffix": s, "options": o} for ne in (2, 3) for lx in (False, True) for s in (False, True) for o in ("own", "default")]}),
-]
-
-
-# harnesses waiting for a decision (not run by ./vcheck C20): `python -c` / tools may import them from here
-PENDING = [
+                              {"ne": 2, "logX": False, "suffix": True, "options": "default"}, {"ne": 3, "logX": False, "suffix": False, "options": "default"},
+                              {"ne": 3, "logX": False, "suffix": False, "intT": True}],
+                    "thorough": [{"ne": ne, "logX": lx, "suffix": s, "options": o} for ne in (2, 3) for lx in (False, True) for s in (False, True) for o in ("own", "default")] +
+                                [{"ne": 3, "logX": lx, "suffix": True, "intT": True} for lx in (False, True)]}),
     Harness("C20.kwn_continue", kwn_continue, functions=[GenericModel.save, GenericModel.load, PrecipitateModel.toDict, PrecipitateModel.fromDict,
                                                          PrecipitateModel.setup, PrecipitateBase.setup, PrecipitateModel._setupAspectRatio],
             assumptions=["same configuration for the saved and the fresh model (same symbolic parameters, isothermal, alloy composition = first recorded row)",
@@ -1420,6 +1446,7 @@ PENDING = [
             stubs=_S_FILE + ["multicomponent backend: equilibrium compositions = the loaded last row (deterministic backend at the recorded state), "
                              "growth rates / interfacial compositions arbitrary", "_calcNucleationRate: leaves the recorded nucleation quantities as they are"],
             bounds={"phases": "nph", "solutes": 2, "size classes": "ncls", "history length": "N"},
-            params={"quick": [{"nph": 1, "nel": 2, "ncls": 2, "N": 2, "io": "file"}, {"nph": 2, "nel": 2, "ncls": 2, "N": 1, "io": "dict"}],
+            params={"quick": [{"nph": 1, "nel": 2, "ncls": 2, "N": 2, "io": "file"}],
                     "thorough": [{"nph": p, "nel": 2, "ncls": c, "N": n, "io": io} for p in (1, 2) for c in (2, 3) for n in (1, 3) for io in ("file", "dict")]}),
 ]
+PENDING = []
